@@ -19,7 +19,12 @@ def resStr : Res → String
   | .none => "none" | .star => "star" | .echo => "echo"
 
 def step (_ : Unit) (op impl : String) : Unit × DrvOut :=
-  match words op with
+  let ws := words op
+  -- `corsdep<k>`: same decision, the allow list having reached the server through conf.Load of a deprecated parameter
+  let ws := match ws with
+    | w :: rest => if w.startsWith "corsdep" then "cors" :: rest else ws
+    | [] => ws
+  match ws with
   | "cors" :: origin :: ok :: sch :: host :: _n :: rest =>
     match Hex.decode origin, parsePURL ok sch host, parseAllow rest with
     | some origin, some o, some allow =>
